@@ -200,7 +200,7 @@ def encode_cases():
             ctx.oblige("static leaf: exactly one unconstrained 256-bit symbol, 32 bytes, static", z3.BoolVal(ok and r.size == 32 and r.static is True))
             if ok:
                 nm = r.data[0].decl().name()
-                ctx.oblige("the symbol is named by the parameter path and its type", z3.BoolVal(bool(re.fullmatch(r"p_amounts\[2\]\.value_" + typ + r"_[0-9a-f]{7}_", nm))), info={"name": nm})
+                ctx.oblige("the symbol is named by the parameter path and its type", z3.BoolVal(bool(re.fullmatch(r"p_amounts\[2\]\.value_" + typ + r"_[0-9a-f]{7}_[0-9]*", nm))), info={"name": nm})
             ctx.oblige("a static leaf registers no dynamic parameter", z3.BoolVal(cd.dyn_params == []))
 
         out.append(Case(f"{PROP}/calldata.Calldata.encode", f"leaf {typ}", harness_leaf, sources=("halmos.calldata:Calldata.encode",)))
@@ -297,7 +297,7 @@ def dyn_sizes_cases():
                 ctx.oblige("candidates: the configured list for this parameter, else the default list of its kind", z3.BoolVal(list(sizes) == want), info={"got": str(sizes)})
                 ok = len(cd.dyn_params) == 1 and cd.dyn_params[0].name == "xs" and list(cd.dyn_params[0].size_choices) == want and cd.dyn_params[0].size_symbol is var and cd.dyn_params[0].typ is typ
                 ctx.oblige("the parameter is registered once with exactly these candidates and the returned size symbol", z3.BoolVal(ok))
-                ctx.oblige("the size symbol is an unconstrained 256-bit symbol named after the parameter", z3.BoolVal(z3.is_const(var) and var.size() == 256 and bool(re.fullmatch(r"p_xs_length_[0-9a-f]{7}_01", var.decl().name()))), info={"name": var.decl().name()})
+                ctx.oblige("the size symbol is an unconstrained 256-bit symbol named after the parameter", z3.BoolVal(z3.is_const(var) and var.size() == 256 and bool(re.fullmatch(r"p_xs_length_[0-9a-f]{7}_0?1", var.decl().name()))), info={"name": var.decl().name()})
 
             out.append(Case(f"{PROP}/calldata.Calldata.get_dyn_sizes", f"{kind},configured={given}", harness, sources=("halmos.calldata:Calldata.get_dyn_sizes",)))
     return out
